@@ -155,8 +155,8 @@ func runLaws(run *ev.Run) {
 		f()
 		run.Note("seconds_"+name, time.Since(t0).Round(100*time.Millisecond).Seconds()) // information only
 	}
-	timed("key", func() { keyFamily(run, ev.Pick(6000, 150000)) })
-	timed("k1", func() { k1Family(run, ev.Pick(300, 5000)) })
+	timed("key", func() { keyFamily(run, ev.Pick(6000, 100000)) })
+	timed("k1", func() { k1Family(run, ev.Pick(300, 2000)) })
 	timed("nep2", func() { nep2Family(run, ev.Pick(600, 20000), ev.Pick(6, 48)) })
 	timed("base58check", func() { b58Family(run, ev.Pick(8000, 300000)) })
 	timed("address", func() { addrFamily(run, ev.Pick(3000, 100000)) })
@@ -164,6 +164,6 @@ func runLaws(run *ev.Run) {
 	timed("fixed", func() { fixedFamily(run, ev.Pick(8000, 300000)) })
 	timed("vmint", func() { bigintFamily(run, ev.Pick(12000, 400000)) })
 	timed("merkle", func() { merkleFamily(run, ev.Pick(8, 80)) })
-	timed("script", func() { scriptFamily(run, ev.Pick(4000, 120000)) })
-	timed("msscript", func() { msScriptFamily(run, ev.Pick(1500, 30000)) })
+	timed("script", func() { scriptFamily(run, ev.Pick(4000, 80000)) })
+	timed("msscript", func() { msScriptFamily(run, ev.Pick(1500, 20000)) })
 }
